@@ -72,10 +72,12 @@ func pqImpl(line string) string {
 			return "ok:" + hx(bs), false
 		case f[0] == "rd" && len(f) == 2:
 			n := atoi(f[1])
-			p := make([]byte, n)
-			for i := range p {
-				p[i] = 0xEE
+			// the caller's buffer is a slice of a larger scratch buffer: its capacity exceeds its length
+			scratch := make([]byte, n+5+n%7)
+			for i := range scratch {
+				scratch[i] = 0xEE
 			}
+			p := scratch[:n]
 			m, err := q.Read(p)
 			if err != nil {
 				return fmt.Sprintf("short:%d", m), false
